@@ -117,11 +117,11 @@ def check_datum_ops(chk, prog, sim):
 
 def check_helpers(chk, prog, sim):
     # replace_if_older_than(&mut self, cand) -> bool
-    def run_replace(fn, self_opt, cand_opt, key):
+    def run_replace(fn, self_opt, cand_opt, key, gargs=None):
         chk.obligation(key, fn["pretty"])
         chk.analysed(fn["pretty"])
         st = S.State()
-        gargs = sim.identity_gargs(fn)
+        gargs = gargs if gargs is not None else sim.identity_gargs(fn)
         a0 = sim.make_arg(st, "slot", subst(fn["sig_inputs"][0], gargs))
         c0 = sim.make_arg(st, "cand", subst(fn["sig_inputs"][1], gargs))
         init = st.mem[a0.ptr.obj]
@@ -163,6 +163,12 @@ def check_helpers(chk, prog, sim):
                     chk.violation("C03.replace", key, "%s: empty slot must be filled and report true (ret=%r after=%r)" % (fn["name"], ret, slot_after))
                     ok = False
                 continue
+            if self_opt and not isinstance(slot_before, Enum):
+                # the path decided its answer without looking at the slot at all (with a present candidate)
+                chk.violation("C03.replace", key, "%s: reports %r for a present candidate without inspecting the slot (path %s): the flag cannot be truthful for both an older and a newer candidate"
+                              % (fn["name"], ret.val, [p_ for p_ in leaf.pc][:3]), fn=fn["pretty"], file=loc(fn["span"]), path=leaf.pc)
+                ok = False
+                continue
             cur = slot_before.fields[0] if self_opt else slot_before
             ct, _ = datum_parts(sim, stl, cand_d)
             st_, _ = datum_parts(sim, stl, cur)
@@ -182,12 +188,21 @@ def check_helpers(chk, prog, sim):
 
     f1 = prog.find_fn(name="replace_if_older_than", self_name="Datum")
     run_replace(f1, False, False, "helper:replace_if_older_than")
-    f2 = [f for f in prog.by_name.get("replace_if_none_or_older_than", []) if f.get("impl_trait", "").endswith("OptionDatumExt")]
-    f3 = [f for f in prog.by_name.get("replace_if_none_or_older_than_option", []) if f.get("impl_trait", "").endswith("OptionDatumExt")]
-    if len(f2) != 1 or len(f3) != 1:
+    def ext_method(name):
+        """the impl's method, or - when the trait provides it - the provided body instantiated at the implementing type"""
+        fi = [f for f in prog.by_name.get(name, []) if (f.get("impl_trait") or "").endswith("OptionDatumExt")]
+        if len(fi) == 1:
+            return fi[0], None
+        fd = [f for f in prog.by_name.get(name, []) if f.get("trait_default") and (f.get("trait") or "").endswith("OptionDatumExt")]
+        imps = [i for i in prog.impls if (i.get("trait") or "").endswith("OptionDatumExt")]
+        if len(fd) == 1 and len(imps) == 1:
+            g = sim.identity_gargs(fd[0])
+            return fd[0], [imps[0]["self"]] + list(g[1:])
         raise AnchorMissing("OptionDatumExt impl methods")
-    run_replace(f2[0], True, False, "helper:replace_if_none_or_older_than")
-    run_replace(f3[0], True, True, "helper:replace_if_none_or_older_than_option")
+    f2, g2 = ext_method("replace_if_none_or_older_than")
+    f3, g3 = ext_method("replace_if_none_or_older_than_option")
+    run_replace(f2, True, False, "helper:replace_if_none_or_older_than", g2)
+    run_replace(f3, True, True, "helper:replace_if_none_or_older_than_option", g3)
     # latest
     fl = [f for f in prog.by_name.get("latest", []) if f["kind"] == "Fn"]
     if len(fl) != 1:
